@@ -198,4 +198,7 @@ func H_C16_usle() {
 	if rain.Get1(0) <= p[2] || qf.Get1(0) <= 0 {
 		vsym.Assert(quickFine == 0 && quickCoarse == 0 && genFine == 0, "no-erosive-rain-or-no-quickflow-zero-quick-load")
 	}
+	// generated material is split by the model's fine fraction KLSC_fine : KLSC, with or without
+	// the maximum-concentration cap (cross-multiplied to avoid a division)
+	vsym.AssertNear(genFine*(klsc.Get1(0)-klscF.Get1(0)), genCoarse*klscF.Get1(0), gnAbs, gnRel, "generated-fine-coarse-split-by-fine-fraction")
 }
